@@ -406,7 +406,8 @@ def save_replay(prop, episode):
 def write_evidence(prop, tier, seed, coverage, wall, violations, assumptions, level="model_checking"):
     # evidence is only ever written for /repo itself; runs against a scratch checkout
     # (VERIF_REPO, used to try the checks on seeded changes) write next to their work files
-    evdir = EVIDENCE if os.path.realpath(REPO) == "/repo" else WORK / "evidence-scratch"
+    # (and so do partial runs, VERIF_ONLY=<batch name substring>, a development aid)
+    evdir = EVIDENCE if os.path.realpath(REPO) == "/repo" and not os.environ.get("VERIF_ONLY") else WORK / "evidence-scratch"
     evdir.mkdir(parents=True, exist_ok=True)
     ev = {"property_id": prop, "tier": tier, "seed": seed, "level": level, "coverage": coverage,
           "assumptions": assumptions, "wall_s": round(wall, 2), "violations": violations}
